@@ -152,6 +152,12 @@ def new_program(rng, ws, name, mods):
                     u["stmts"].append(f"call {ov}%{b[0]}()")
                 if t["parent"]:
                     u["stmts"].append(f"print *, {ov}%{t['parent']}")
+                    # ASSOCIATE names bound to inherited components / the parent part
+                    pt = find_type(ws, t["parent"])
+                    if pt is not None and pt["comps"]:
+                        an = f"as{uid(ws)}"
+                        u["stmts"] += [f"associate ({an} => {ov}%{pt['comps'][0]['name']}, {an}p => {ov}%{t['parent']})",
+                                       f"  print *, {an}, {an}p%{pt['comps'][0]['name']}", "end associate"]
         for p in src["procs"]:
             if pub(p["name"]) and rng.random() < 0.6:
                 args = ", ".join("1" for _ in p["args"])
@@ -163,6 +169,14 @@ def new_program(rng, ws, name, mods):
             if pub(v["name"]) and not v["type"].startswith("type("):
                 u["stmts"].append(f"print *, {v['name']}")
     return u
+
+
+def find_type(ws, name):
+    for u in ws["files"].values():
+        for t in u.get("types", []) if isinstance(u, dict) else []:
+            if t["name"] == name:
+                return t
+    return None
 
 
 def new_ppfile(rng, ws, name):
